@@ -338,7 +338,7 @@ fn run(ctx: &Arc<Ctx>) {
     let astral_step = if ctx.quick() { 16 } else { 1 };
     sblocks.extend((0x10000..0x110000u32).step_by(0x1000).map(|s| ScalarStrings { start: s, len: 0x1000, step: astral_step }));
     ctx.run_enumerated("scalar-strings", "scalarstr", sblocks, if ctx.quick() { Some("every BMP scalar value (and every 16th astral one) as a one-character string through encode_str / decode_str; special code points also at the start / end of text and as macro body") } else { Some("every Unicode scalar value as a one-character string through encode_str / decode_str; special code points also at the start / end of text and as macro body") }, check_scalar_strings);
-    ctx.run_generated("strings", "str", ctx.cases(400_000, 6_000_000), g_str, check);
+    ctx.run_generated("strings", "str", ctx.cases(800_000, 8_000_000), g_str, check);
 }
 
 fn replay(_ctx: &Ctx, kind: &str, case: &Value) -> Option<Verdict> {
